@@ -326,7 +326,7 @@ fn render_fn(ctx: &mut Ctx, unit: &Unit, fs: &FnSpec, found: &FoundFn, in_trait_
         "name": display, "emit_name": name, "file": fs.file, "src_lines": [found.start, found.end],
         "rules": n.log, "shape": shape, "fingerprint": fnv(&shape),
         "loops": n.loop_no, "closures": n.closure_no, "anchors_used": n.used_anchors, "props": fs.props,
-        "may_panic_asserts": fs.may_panic, "spec_line": fs.line,
+        "may_panic_asserts": fs.may_panic, "spec_line": fs.line, "included": fs.opts.contains("included"),
     });
     Rendered { text: format!("{}{}\n", header, body), meta }
 }
@@ -433,6 +433,7 @@ fn main() {
     }
     let fail = |msg: &str| -> ! { eprintln!("{}", msg); println!("VX-UNDECIDED {}", msg); std::process::exit(2) };
     let text = std::fs::read_to_string(&specfile).unwrap_or_else(|e| fail(&format!("SPEC-ERROR cannot read {}: {}", specfile, e)));
+    let text = spec::preprocess(&text, std::path::Path::new(&specfile).parent().unwrap_or(std::path::Path::new(".")), 0).unwrap_or_else(|e| fail(&format!("SPEC-ERROR {}", e)));
     let unit = spec::parse(&text).unwrap_or_else(|e| fail(&format!("SPEC-ERROR {}", e)));
     let mut ctx = Ctx { repo, files: Default::default(), canary, out: String::new(), fns_meta: vec![], types_meta: vec![], canaries: vec![], problems: vec![] };
 
